@@ -153,6 +153,7 @@ func (c *cTx) Request() *http.Request {
 // SetRequest sets the [http.Request].
 func (c *cTx) SetRequest(r *http.Request) {
 	c.req = r
+	c.cachedQuery = nil
 }
 
 // Writer returns the [ResponseWriter].
